@@ -49,7 +49,9 @@ SPECS = {
         exhaustive_scope={"thorough": "17 positions x 5 sites x 2 modes x 3 tables x 6 names"},
     ),
     "C04": dict(
-        groups=["params"],
+        groups=["params", "project"],
+        only_oracles=["tauri_key", "nopanic", "c04_key_set"],
+        excluded_classes=['unsupportedType', 'undefinedNamedType', 'undocumentedItemShape', 'duplicateTypeNames', 'duplicateCommandNames', 'K18a_mappedAndDefined', 'K01a_reservedOrIllegalFnName'],
         theorems="Typegen.Theorems.C04",
         trusted_base=[LEAN_TB, HARNESS_TB,
                       "spec: H.heckLowerCamel transcribes heck 0.5 to_lower_camel_case on [a-z0-9_]* (compared per case with the real heck crate); Tauri's macro crate is not in the registry",
@@ -92,6 +94,40 @@ SPECS = {
         exhaustive={"quick": False, "thorough": False},
         partial=["rendering stage proved for all validator values (C11_*_chain, escape_exact); scanner stage proved on instances, exclusion classes K11b-K11g are known findings"],
     ),
+    "C03": dict(groups=["project"], only_oracles=["c03_wrappers"], excluded_classes=['unsupportedType', 'undefinedNamedType', 'undocumentedItemShape', 'duplicateTypeNames', 'duplicateCommandNames', 'K18a_mappedAndDefined', 'K01a_reservedOrIllegalFnName'], theorems="Typegen.Theorems.C03",
+        trusted_base=[LEAN_TB, HARNESS_TB,
+                      "project-level tie: the harness renders a project IR to Rust source files, runs the real CommandAnalyzer + generators on them and hands the IR (annotated with the token text proc_macro2 prints for every attribute and the generic tree of every type) to the Lean model; compared: the whole analysis (commands, parameters, channels, events, discovered types, dependency sets) and the text of all four generated files modulo whitespace and the header comment",
+                      "modelled, not verified: syn (the IR is what syn hands to the analysers), walkdir, tera (templates transcribed by hand, validated by the text comparison), proc_macro2 Display"],
+        assumptions=["spec of 'command': top-level fn of a selected file with an attribute path tauri::command or command"],
+        rule="random projects of 1..5 files in nested directories (120 quick / 1500 thorough, each in both modes, with 5 configuration variants): commands with value / injected (12 spellings) / channel (3 spellings) parameters, serde structs / enums with attributes, validators, events at every documented placement and receiver form, helper functions, impl blocks and inline modules with command-looking functions, decoys under target/ and .git/, unparsable and empty files; a *safe* stream (2/3) stays inside the property's input domain, an *adversarial* stream (1/3) aims at the known exclusion classes; non-trivial = project with at least one command; distinct = hash of (IR, configuration)", exhaustive={"quick": False, "thorough": False},
+        partial=["C03 holds unconditionally on the model's own file filter; equality of that filter with the statement's (no target/.git *component below the project path*) fails for K03a roots"]),
+    "C07": dict(groups=["project"], only_oracles=["c07_declared_exactly_reachable"], excluded_classes=['unsupportedType', 'undefinedNamedType', 'undocumentedItemShape', 'duplicateTypeNames', 'duplicateCommandNames', 'K18a_mappedAndDefined', 'K01a_reservedOrIllegalFnName'], theorems="Typegen.Theorems.C07",
+        trusted_base=[LEAN_TB, HARNESS_TB,
+                      "project-level tie: the harness renders a project IR to Rust source files, runs the real CommandAnalyzer + generators on them and hands the IR (annotated with the token text proc_macro2 prints for every attribute and the generic tree of every type) to the Lean model; compared: the whole analysis (commands, parameters, channels, events, discovered types, dependency sets) and the text of all four generated files modulo whitespace and the header comment",
+                      "modelled, not verified: syn (the IR is what syn hands to the analysers), walkdir, tera (templates transcribed by hand, validated by the text comparison), proc_macro2 Display"],
+        assumptions=["reachability spec: identifiers of the type trees (error arm of Result excluded), closed under field types of token-aware serde-derived named-field / unit structs and enums"],
+        rule="random projects of 1..5 files in nested directories (120 quick / 1500 thorough, each in both modes, with 5 configuration variants): commands with value / injected (12 spellings) / channel (3 spellings) parameters, serde structs / enums with attributes, validators, events at every documented placement and receiver form, helper functions, impl blocks and inline modules with command-looking functions, decoys under target/ and .git/, unparsable and empty files; a *safe* stream (2/3) stays inside the property's input domain, an *adversarial* stream (1/3) aims at the known exclusion classes; non-trivial = project with at least one command; distinct = hash of (IR, configuration)", exhaustive={"quick": False, "thorough": False},
+        partial=["soundness half (declared => reachable and serde-defined, declared once) and seed completeness proved; completeness of the worklist closure is tied by the oracle on every case"]),
+    "C09": dict(groups=["project"], only_oracles=["c09_defined_before_use"], excluded_classes=['unsupportedType', 'undefinedNamedType', 'undocumentedItemShape', 'duplicateTypeNames', 'duplicateCommandNames', 'K18a_mappedAndDefined', 'K01a_reservedOrIllegalFnName'], theorems="Typegen.Theorems.C09",
+        trusted_base=[LEAN_TB, HARNESS_TB,
+                      "project-level tie: the harness renders a project IR to Rust source files, runs the real CommandAnalyzer + generators on them and hands the IR (annotated with the token text proc_macro2 prints for every attribute and the generic tree of every type) to the Lean model; compared: the whole analysis (commands, parameters, channels, events, discovered types, dependency sets) and the text of all four generated files modulo whitespace and the header comment",
+                      "modelled, not verified: syn (the IR is what syn hands to the analysers), walkdir, tera (templates transcribed by hand, validated by the text comparison), proc_macro2 Display"],
+        assumptions=["generated type graphs are acyclic (types only refer to earlier types); 'every internal iteration order' is discharged by C13 (sorted iteration), so one process per case suffices"],
+        rule="random projects of 1..5 files in nested directories (120 quick / 1500 thorough, each in both modes, with 5 configuration variants): commands with value / injected (12 spellings) / channel (3 spellings) parameters, serde structs / enums with attributes, validators, events at every documented placement and receiver form, helper functions, impl blocks and inline modules with command-looking functions, decoys under target/ and .git/, unparsable and empty files; a *safe* stream (2/3) stays inside the property's input domain, an *adversarial* stream (1/3) aims at the known exclusion classes; non-trivial = project with at least one command; distinct = hash of (IR, configuration)", exhaustive={"quick": False, "thorough": False}),
+    "C12": dict(groups=["project"], only_oracles=["c12_listeners"], excluded_classes=['unsupportedType', 'undefinedNamedType', 'undocumentedItemShape', 'duplicateTypeNames', 'duplicateCommandNames', 'K18a_mappedAndDefined', 'K01a_reservedOrIllegalFnName'], theorems="Typegen.Theorems.C12",
+        trusted_base=[LEAN_TB, HARNESS_TB,
+                      "project-level tie: the harness renders a project IR to Rust source files, runs the real CommandAnalyzer + generators on them and hands the IR (annotated with the token text proc_macro2 prints for every attribute and the generic tree of every type) to the Lean model; compared: the whole analysis (commands, parameters, channels, events, discovered types, dependency sets) and the text of all four generated files modulo whitespace and the header comment",
+                      "modelled, not verified: syn (the IR is what syn hands to the analysers), walkdir, tera (templates transcribed by hand, validated by the text comparison), proc_macro2 Display"],
+        assumptions=["the documented placements / receivers are those the walker of event_parser.rs visits; payload typing is decided under C02/C05"],
+        rule="random projects of 1..5 files in nested directories (120 quick / 1500 thorough, each in both modes, with 5 configuration variants): commands with value / injected (12 spellings) / channel (3 spellings) parameters, serde structs / enums with attributes, validators, events at every documented placement and receiver form, helper functions, impl blocks and inline modules with command-looking functions, decoys under target/ and .git/, unparsable and empty files; a *safe* stream (2/3) stays inside the property's input domain, an *adversarial* stream (1/3) aims at the known exclusion classes; non-trivial = project with at least one command; distinct = hash of (IR, configuration)", exhaustive={"quick": False, "thorough": False}),
+    "C02": dict(groups=["project"], only_oracles=["c02_types_refs_resolve", "c02_types_closed", "c02_no_duplicate_exports", "c02_index_reexports_written"],
+        excluded_classes=['unsupportedType', 'undefinedNamedType', 'undocumentedItemShape', 'duplicateTypeNames', 'duplicateCommandNames', 'K18a_mappedAndDefined', 'K01a_reservedOrIllegalFnName'], theorems="Typegen.Theorems.C02",
+        trusted_base=[LEAN_TB, HARNESS_TB,
+                      "project-level tie: the harness renders a project IR to Rust source files, runs the real CommandAnalyzer + generators on them and hands the IR (annotated with the token text proc_macro2 prints for every attribute and the generic tree of every type) to the Lean model; compared: the whole analysis (commands, parameters, channels, events, discovered types, dependency sets) and the text of all four generated files modulo whitespace and the header comment",
+                      "modelled, not verified: syn (the IR is what syn hands to the analysers), walkdir, tera (templates transcribed by hand, validated by the text comparison), proc_macro2 Display"],
+        assumptions=["hypothesis of the statement: every named type is defined as a serde struct/enum or mapped (class undefinedNamedType is outside the domain)"],
+        rule="random projects of 1..5 files in nested directories (120 quick / 1500 thorough, each in both modes, with 5 configuration variants): commands with value / injected (12 spellings) / channel (3 spellings) parameters, serde structs / enums with attributes, validators, events at every documented placement and receiver form, helper functions, impl blocks and inline modules with command-looking functions, decoys under target/ and .git/, unparsable and empty files; a *safe* stream (2/3) stays inside the property's input domain, an *adversarial* stream (1/3) aims at the known exclusion classes; non-trivial = project with at least one command; distinct = hash of (IR, configuration)", exhaustive={"quick": False, "thorough": False},
+        partial=["closedness of type references is tied by the oracles; proved: index re-exports, distinct declared names, params declarations, zod aliases"]),
 }
 
 PROC_TB = "process-level tie: the real cargo-tauri-typegen binary (built from /repo's working tree into /verif/.build) and BuildSystem::generate_at_build_time (via the harness) run in sandbox directories under /verif/.work; observations (exit status, action, files written by mtime, cache record) compared with the Lean run model through driver op `history`; C08 oracle = byte comparison with a forced generation into an empty directory"
